@@ -936,4 +936,26 @@ theorem src_rotation_matrix_ypr_transpose_orthonormal (y p r : ℝ) :
 
 end OnSourceRotations
 
+
+/-! ## On the source: the three einsum conventions (`to_gcs`, `from_gcs`, `rotate`) as translated on every run -/
+section OnSourceFrames
+open Arim.Tie.C17
+variable {K : Type} [Field K]
+
+/-- **`from_gcs ∘ to_gcs = id` and `to_gcs ∘ from_gcs = id` on the source**, for every orthonormal frame and origin -/
+theorem src_frames_mutually_inverse (o : Src.Ops K) (c p org : P3 K) (b : M3 K) (h : Orthonormal b) :
+    Src.from_gcs o (Src.to_gcs o c b org) b org = c ∧ Src.to_gcs o (Src.from_gcs o p b org) b org = p := by
+  simp only [tie_to_gcs, tie_from_gcs]
+  exact ⟨from_to_gcs c org b h, to_from_gcs' p org b h⟩
+
+/-- **`rotate` on the source is an isometry** (with or without a centre) for every matrix with orthonormal rows, and keeps its centre fixed -/
+theorem src_rotate_isometry (o : Src.Ops K) (c c' centre : P3 K) (r : M3 K) (h : Orthonormal r) :
+    nsq (vsub (Src.rotate_about_origin o c r) (Src.rotate_about_origin o c' r)) = nsq (vsub c c') ∧
+    nsq (vsub (Src.rotate_about_centre o c r centre) (Src.rotate_about_centre o c' r centre)) = nsq (vsub c c') ∧
+    Src.rotate_about_centre o centre r centre = centre := by
+  simp only [tie_rotate_about_origin, tie_rotate_about_centre]
+  exact ⟨rotate_isometry' c c' r none h, rotate_isometry' c c' r (some centre) h, rotate_centre_fixed r centre⟩
+
+end OnSourceFrames
+
 end Arim.C17
